@@ -743,7 +743,7 @@ func (fc *FontConfigurationPango) splitFirstLine(hyphenCache map[HyphenDictKey]h
 	var startWord, stopWord int
 	if hyphens == HAuto && lang != "" {
 		nextWordBoundaries := fc.wordBoundaries(secondLineText)
-		if len(nextWordBoundaries) == 2 {
+		if nextWordBoundaries != nil { // len() of a nil pointer to an array is 2
 			// We have a word to hyphenate
 			startWord, stopWord = nextWordBoundaries[0], nextWordBoundaries[1]
 			nextWord = string(secondLineText[startWord:stopWord])
